@@ -10,7 +10,7 @@ from __future__ import annotations
 import z3
 from . import values as V
 from .values import U
-from .logic import (Idx, Shp, Mono, Name, DT, I, B, R, expo, inshape, bshape, bok, proj, ndim, size, msum,
+from .logic import (Idx, Shp, Mono, Name, DT, PV, I, B, R, expo, inshape, bshape, bok, proj, ndim, size, msum,
                     mzero, simplify_bool)
 from .sortmodel import KeyMat, IntVec
 
@@ -37,6 +37,7 @@ def shape_axioms(ctx):
     s2 = z3.Const(ctx.fresh("s"), Shp)
     return [
         z3.ForAll([s], z3.And(bok(s, s), bshape(s, s) == s)),
+        z3.ForAll([s, i], proj(i, s, s) == i),
         z3.ForAll([s, s2], z3.And(bok(s, s2) == bok(s2, s), bshape(s, s2) == bshape(s2, s))),
         ndim(shp0) == 0, size(shp0) == 1,
         z3.ForAll([s], ndim(s) >= 0),
@@ -417,6 +418,9 @@ class Poly:
         self.names = names if names is not None else z3.Const(ctx.fresh(f"names_{base}"), Names)
         self.region = region or Region("fresh", base)
         self._init = init
+        vf = z3.Function(ctx.fresh(f"val_{base}"), Idx, PV)       # abstract polynomial value of element i
+        self._val = lambda i: vf(i)
+        self.owndata = z3.Bool(ctx.fresh(f"owndata_{base}"))
 
     def row(self, t):
         return self._row(t)
@@ -427,6 +431,9 @@ class Poly:
     def init(self, t, i):
         return z3.BoolVal(True) if self._init is None else self._init(t, i)
 
+    def val(self, i):
+        return self._val(i)
+
     def frozenC(self):
         """Closure over the *current* coefficient state (later writes are not seen)."""
         if getattr(self, "_frozen", None) is not None:
@@ -435,8 +442,10 @@ class Poly:
 
     def wf(self, ctx):
         """Well-formedness (C03): at least one term and one indeterminate, rows pairwise distinct, names match."""
+        from .sortmodel import meq
         return z3.And(self.N >= 1, self.D >= 1, nlen(self.names) == self.D,
-                      ctx.forall_range2(0, self.N, lambda t, s: self.row(t) != self.row(s)))
+                      ctx.forall_range2(0, self.N, lambda t, s: z3.And(self.row(t) != self.row(s),
+                                                                       z3.Not(meq(self.row(t), self.row(s), self.D)))))
 
     # ---- protocol
     def sx_isinstance(self, ex, name):
@@ -479,6 +488,8 @@ class Poly:
             return ndim(self.shape)
         if attr == "KEY_OFFSET":
             return 59
+        if attr == "flags":
+            return {"OWNDATA": self.owndata}
         return V.BoundMethod(self, attr)
 
     def sx_method(self, ex, attr, args, kw, node):
@@ -488,6 +499,7 @@ class Poly:
                      lambda t, j: self.C(t, unravel_idx(j, s)), ravel_shape(s), self.dtype, self.names, self.region,
                      None if self._init is None else (lambda t, j: self.init(t, unravel_idx(j, s))))
             p._frozen = lambda: (lambda t, j, f=self.frozenC(): f(t, unravel_idx(j, s)))
+            p._val = lambda j: self.val(unravel_idx(j, s))
             p.view_of = self
             return p
         model = ex.reg.fn.get(f"numpoly.ndpoly.{attr}")
@@ -581,14 +593,16 @@ def install(reg):
     def ufunc2(name, f, kind):
         @ax(f"numpy.{name}")
         def _u(ex, args, kw, node, f=f, kind=kind):
-            if "out" in kw or "where" in kw or "**" in kw:
-                raise U(f"numpy.{name} with out/where", node)
+            if "out" in kw or "**" in kw or kw.get("where", True) is not True or set(kw) - {"where"}:
+                raise U(f"numpy.{name} with out/where/extra keywords", node)
             return elementwise(ex, f, list(args), kind, node)
 
     ufunc2("greater", lambda a, b: a > b, "bool")
     ufunc2("greater_equal", lambda a, b: a >= b, "bool")
     ufunc2("less", lambda a, b: a < b, "bool")
     ufunc2("less_equal", lambda a, b: a <= b, "bool")
+    ufunc2("equal", lambda a, b: a == b, "bool")
+    ufunc2("not_equal", lambda a, b: a != b, "bool")
     ufunc2("add", lambda a, b: a + b, "real")
     ufunc2("subtract", lambda a, b: a - b, "real")
     ufunc2("multiply", lambda a, b: a * b, "real")
